@@ -4,7 +4,7 @@ from hypothesis import strategies as st
 from vk.core import Violation, Obs, Part
 
 ID = 'C20'
-RULE = ('Hypothesis-generated DEF models rendered to text in the supported subset: header statements, DESIGN, UNITS, DIEAREA (2..4 points), ROW and TRACKS '
+RULE = ('Part long: nets with one routed segment of 1500-20000 points (almost all with a * coordinate) and vias. Part roundtrip: Hypothesis-generated DEF models rendered to text in the supported subset: header statements, DESIGN, UNITS, DIEAREA (2..4 points), ROW and TRACKS '
         'statements, VIAS (options in any order), COMPONENTS (all orientations), PINS (NET, DIRECTION, USE, LAYER, PLACED, SPECIAL/PORT flags), '
         'SPECIALNETS and NETS with pins, USE and one ROUTED statement of 1..4 segments (NEW) whose point lists contain * wildcards on either '
         'coordinate, extension values, vias without/with orientation (regular nets) and via arrays DO n BY m STEP dx dy (special nets), wire options; '
@@ -295,4 +295,26 @@ def compare(m, d, ctx):
     return Obs(multi and wild_after_via and arr, labels)
 
 
-PARTS = [Part('roundtrip', prop, strategy=models, quick=(8, 110), thorough=(16, 2000))]
+def enum_long(tier):
+    """one special and one regular net whose single routed segment has thousands of points (serpentine: nearly every point inherits a
+    coordinate) with a via now and then and a stack of vias at the end"""
+    for npts in ([1500] if tier == 'quick' else [1500, 6000, 20000]):
+        def seg(special):
+            items = []
+            for k in range(npts):
+                if k % 97 == 96:
+                    items.append(['v', 'via1_4', ([2, 1, 40, 40] if k % 2 else None) if special else (None if k % 2 else 'FS')])
+                elif k % 2:
+                    items.append(['p', 100 + 7 * k, None])
+                else:
+                    items.append(['p', None, 50 + 3 * k])
+            items += [['v', 'via12', None], ['v', 'VIA23_X', None]]
+            return dict(layer='metal2', width=120 if special else None, first=[10, 20], items=items, opt='')
+        yield dict(version='5.8', divider='/', busbit='[]', design='long', units=1000, diearea=[[0, 0], [900000, 900000]], rows=[], tracks=[], vias=[],
+                   comps=[], pins=[], ws=npts,
+                   spnets=[dict(name='VDD', pins=[], use='POWER', routed=[seg(True)])],
+                   nets=[dict(name='n_12', pins=[['u1', 'A']], use=None, routed=[seg(False)])])
+
+
+PARTS = [Part('long', prop, enumerate=enum_long, quick=(1, 0), thorough=(3, 0)),
+         Part('roundtrip', prop, strategy=models, quick=(8, 110), thorough=(16, 2000))]
